@@ -2,9 +2,9 @@ package p20
 
 import (
 	"encoding/binary"
+	"errors"
 	"encoding/hex"
 	"fmt"
-	"io"
 	"math/bits"
 	"sort"
 	"strconv"
@@ -28,7 +28,6 @@ func factsGcs() []core.Fact {
 		{Name: "defaultM", Value: int64(builder.DefaultM)},
 		{Name: "keySize", Value: int64(gcs.KeySize)},
 		{Name: "opReturn", Value: int64(txscript.OP_RETURN)},
-		{Name: "varIntProtoVer", Value: int64(gcs.VerifVarIntProtoVer())},
 		{Name: "hashSize", Value: int64(chainhash.HashSize)},
 	}
 }
@@ -115,18 +114,15 @@ func key16(s string) [gcs.KeySize]byte {
 }
 
 func gcsErr(err error) string {
+	// only the exported sentinel errors are part of the observation; every other failure (short or
+	// non-canonical N prefix, however it is worded or wrapped) is one class
 	switch {
-	case err == gcs.ErrNTooBig:
+	case errors.Is(err, gcs.ErrNTooBig):
 		return "err:ntoobig"
-	case err == gcs.ErrPTooBig:
+	case errors.Is(err, gcs.ErrPTooBig):
 		return "err:ptoobig"
-	case err == io.EOF || err == io.ErrUnexpectedEOF:
-		return "err:eof"
 	}
-	if _, ok := err.(*wire.MessageError); ok {
-		return "err:noncanon"
-	}
-	return "err:other"
+	return "err:decode"
 }
 
 // ---------------------------------------------------------------- exec
@@ -359,10 +355,7 @@ func genGcs(g *core.Gen) {
 	}
 	// raw Golomb-Rice reads over arbitrary bytes
 	for i := 0; i < g.N(1500, 50000); i++ {
-		p := r.Intn(33)
-		if r.Chance(1, 10) {
-			p = 33 + r.Intn(31)
-		}
+		p := r.Intn(33) // P > 32 cannot reach the reader through the API
 		d := r.Bytes(r.Intn(40))
 		if r.Chance(1, 4) { // long unary runs
 			for j := range d {
@@ -782,17 +775,14 @@ func hash32(s string) *chainhash.Hash {
 }
 
 func bldErr(err error) string {
+	// sentinel errors by identity; "p/m value is not set" by being any other error (its wording is free)
 	switch {
-	case err == gcs.ErrPTooBig:
+	case errors.Is(err, gcs.ErrPTooBig):
 		return "err:ptoobig"
-	case err == gcs.ErrNTooBig:
+	case errors.Is(err, gcs.ErrNTooBig):
 		return "err:ntoobig"
-	case strings.Contains(err.Error(), "p value"):
-		return "err:pnotset"
-	case strings.Contains(err.Error(), "m value"):
-		return "err:mnotset"
 	}
-	return "err:other"
+	return "err:notset"
 }
 
 func u8(s string) uint8 {
